@@ -154,3 +154,113 @@ func recreateDuringDeletion(c *drv.Ctx, bin string, rounds int) error {
 	}
 	return nil
 }
+
+// renameOntoDeletingName: the other way a name can change hands while its old instance is still being wiped - another
+// instance is renamed onto it (RPC "repo <uuid> rename <old> <new>").  Same oracle: once the rename was ACCEPTED, the
+// end of the old instance's deletion must not change what the renamed instance returns.
+func renameOntoDeletingName(c *drv.Ctx, bin string) error {
+	dir, err := c.NewDataDir("rename-onto", drv.ConfOpts{})
+	if err != nil {
+		return err
+	}
+	w, err := drv.StartWorker(bin, dir, drv.StartOpts{})
+	if err != nil {
+		return err
+	}
+	defer w.Kill()
+	cl := &dvc.Client{W: w}
+	root, err := cl.NewRepo("rename-onto")
+	if err != nil {
+		return err
+	}
+	for _, n := range []string{"victim", "mover"} {
+		if err := cl.NewInstance(root, "keyvalue", n, nil); err != nil {
+			return err
+		}
+	}
+	for i := 0; i < 40; i++ {
+		if r, err := w.Post(fmt.Sprintf("/api/node/%s/victim/key/old%d", root, i), []byte("old")); err != nil || !r.OK() {
+			return fmt.Errorf("fill victim: %v %v", r, err)
+		}
+	}
+	for i := 0; i < 5; i++ {
+		if r, err := w.Post(fmt.Sprintf("/api/node/%s/mover/key/m%d", root, i), []byte(fmt.Sprintf("mv%d", i))); err != nil || !r.OK() {
+			return fmt.Errorf("fill mover: %v %v", r, err)
+		}
+	}
+	deleting := func() (bool, error) {
+		var out struct {
+			Running bool `json:"running"`
+		}
+		err := w.API("c06.deleting", nil, &out)
+		return out.Running, err
+	}
+	if err := w.SetWipeDelay(500 * 1000); err != nil {
+		return err
+	}
+	if err := w.API("c06.delete", map[string]string{"root": root, "name": "victim"}, nil); err != nil {
+		return err
+	}
+	accepted, attempts, during := false, 0, false
+	for ; attempts < 400 && !accepted; attempts++ {
+		busy, err := deleting()
+		if err != nil {
+			return err
+		}
+		err = w.API("rpc.data_rename", map[string]string{"uuid": root, "name": "mover", "newname": "victim"}, nil)
+		if err == nil {
+			accepted, during = true, busy
+			break
+		}
+		if _, ok := err.(*drv.APIError); !ok {
+			return err
+		}
+		time.Sleep(10 * time.Millisecond)
+	}
+	w.SetDelay(0, 0, false)
+	if !accepted {
+		c.Inconclusive("rename onto a deleted name was never accepted")
+		return nil
+	}
+	for i := 0; ; i++ {
+		busy, err := deleting()
+		if err != nil {
+			return err
+		}
+		if !busy {
+			break
+		}
+		if i > 4000 {
+			c.Inconclusive("rename-onto: old deletion still running")
+			return nil
+		}
+		time.Sleep(10 * time.Millisecond)
+	}
+	c.Case(fmt.Sprintf("rename-onto|accepted-during-wipe=%v", during), true)
+	c.Seen("recreate_acceptance", fmt.Sprintf("rename-accepted-during-wipe=%v", during))
+	c.Count("rename_onto_attempts_refused", attempts)
+	wit := map[string]interface{}{"accepted_while_old_deletion_running": during, "refused_attempts": attempts}
+	for i := 0; i < 5; i++ {
+		r, err := w.Get(fmt.Sprintf("/api/node/%s/victim/key/m%d", root, i))
+		if err != nil {
+			return err
+		}
+		if r.Status != 200 || string(r.Body) != fmt.Sprintf("mv%d", i) {
+			c.Violation("rename-onto:renamed-instance-lost-when-old-deletion-finished", fmt.Sprintf("instance \"mover\" renamed (accepted) to \"victim\" while the old \"victim\" was being deleted: after the old deletion finished GET victim/key/m%d answers %s", i, r), wit)
+			return nil
+		}
+	}
+	if r, err := w.Get("/api/node/" + root + "/victim/keys"); err != nil {
+		return err
+	} else if r.Status != 200 || string(r.Body) != `["m0","m1","m2","m3","m4"]` {
+		c.Violation("rename-onto:renamed-instance-keys-wrong", fmt.Sprintf("the renamed instance lists %s, expected its own five keys and none of the deleted instance", r), wit)
+	}
+	ri, err := cl.Repo(root)
+	if err != nil {
+		return err
+	}
+	if _, ok := ri.DataInstances["victim"]; !ok {
+		c.Violation("rename-onto:renamed-instance-not-in-repo-metadata", "the renamed instance is not listed in the repo metadata after the old deletion finished", wit)
+	}
+	return nil
+}
